@@ -89,3 +89,42 @@ def make_box_class(world):
                     break
             raise CryptoError("Decryption failed. Ciphertext failed verification")
     return IdealBox
+
+
+def make_rope_box_class(world):
+    """ideal AEAD over ropes (plaintexts of symbolic length): ciphertext = nonce || opaque blob of len(pt)+16; decrypt succeeds iff given exactly
+    nonce || the whole blob of a registered entry made under the same key.  Opaque blobs never equal anything else (unforgeability)."""
+    from symrun.rope import SymRope, Blob, sym_len
+
+    class RopeBox:
+        KEY_SIZE = 32
+        NONCE_SIZE = 24
+        MACBYTES = 16
+
+        def __init__(self, key):
+            self.key = key
+
+        def encrypt(self, pt, nonce=None):
+            assert nonce is not None and len(nonce) == 24
+            n = sym_len(pt)
+            blob = Blob("ct%d" % len(world.entries), (n.t if hasattr(n, "t") else n) + 16)
+            world.entries.append(dict(blob=blob, key=self.key, nonce=bytes(nonce), pt=pt, ct=b""))
+            return SymRope.of_bytes(bytes(nonce)) + SymRope.of_blob(blob)
+
+        def decrypt(self, c, nonce=None):
+            if nonce is not None:
+                c = nonce + c
+            r = SymRope.lift(c)
+            head, body = r[:24], r[24:]
+            if isinstance(body, SymRope):
+                blob, cond = body.is_exactly_blob()
+                if blob is not None:
+                    for ent in world.entries:
+                        if ent.get("blob") is blob:
+                            same = (head == ent["nonce"])
+                            if (same if isinstance(same, bool) else bool(same)) and (cond if isinstance(cond, bool) else bool(cond)):
+                                if ent["key"] == self.key:
+                                    return ent["pt"]
+                            break
+            raise CryptoError("Decryption failed. Ciphertext failed verification")
+    return RopeBox
